@@ -98,6 +98,22 @@ def run(ck):
         # ExtEvent.send and the handler (persistent blocks)
         from rules.shared import event_result_passed_on
         event_result_passed_on(ck, R1, 'fsm:FSM')
+        # "after any kind of stop ... raises EdzedInvalidState": every stop goes through abort(), which fills
+        # the error slot at once; a bare cancel() of the simulation task leaves is_ready() True until the
+        # task has run (a forced reset, then a send() on a kept ExtEvent in the same synchronous stretch)
+        sites_ = []
+        for fi_ in prog.pkg_funcs():
+            for x_ in own_nodes(fi_.node):
+                if isinstance(x_, ast.Call) and call_name(x_) == 'cancel' and (
+                        '_simtask' in recv(x_) or 'simtask' in recv(x_).lower()) and \
+                        not fi_.fid.endswith('Circuit.abort'):
+                    sites_.append((fi_, x_))
+        ck.ob(R1, "who stops the simulation task", not sites_,
+              "the simulation task is cancelled by Circuit.abort() only (which records the error first)"
+              if not sites_ else
+              f"{sites_[0][0].fid} cancels the simulation task without recording an error: the circuit "
+              "answers is_ready() == True until the task has processed the cancellation", sites_[0][0] if sites_
+              else None, sites_[0][1] if sites_ else 'edzed/simulator.py:1')
 
     with ck.section('R14.1'):
         # ------------------------------------------------------------------ R14.1
